@@ -29,7 +29,6 @@ package parser
 import (
 	nurl "net/url"
 	"sort"
-	"strings"
 
 	"github.com/markusmobius/go-domdistiller/internal/pagination/info"
 	"github.com/markusmobius/go-domdistiller/internal/pagination/pattern"
@@ -206,7 +205,9 @@ func newDetectionStateFromMonotonicNumbers(monotonicNumbers []*info.PageInfo, is
 		// If feasible, insert current document URL as first page.
 		// Otherwise, we enhance the heuristic: if current document URL fits the paging pattern
 		// of the potential pagination URLs, consider it as first page too.
-		docURL := strings.TrimSuffix(parsedDocURL.String(), "/")
+		// (the trailing slash of its path is trimmed already; a slash that ends its
+		// query is part of the address)
+		docURL := parsedDocURL.String()
 		if pageParamInfo.CanInsertFirstPage(docURL, monotonicNumbers) {
 			pageParamInfo.InsertFirstPage(docURL)
 		} else if candidate.pagePattern.IsPagingURL(docURL) {
